@@ -6,8 +6,8 @@ an unquoted identifier is replaced by its upper-cased text, a quoted one is kept
 transform — the other rewrites, the status-message templates (`cursor.py:304-319`), the context bookkeeping
 (`set_schema`, `conn.py:44-45`), the qualification check (`checks.py`), `expr.key_command`, the MERGE decomposition
 (`transforms_merge.py`), DuckDB — only ever sees the folded tree.  The places where the code looks at *keyword* text it
-keeps raw in the tree are modelled too: `kind` strings and the USE kind (`.upper()` before comparing: folded), and the
-MERGE `THEN` variable (compared with `== "DELETE"`, not folded — the defect `C02/merge-delete-lowercase`).
+keeps raw in the tree are modelled too: `kind` strings, the USE kind and (since the repair of `C02/merge-delete-lowercase`)
+the MERGE `THEN` variable are upper-cased by the code before they are compared.
 
 Text is `List Char`; `upper` is ASCII upper-casing (Python's `str.upper()` is Unicode: unquoted identifiers are ASCII
 in every envelope, see DESIGN §2).
@@ -32,7 +32,6 @@ def Ident.equal (a b : Ident) : Bool := a.norm == b.norm
 inductive Node
   | ident (i : Ident)                       -- exp.Identifier
   | kwFolded (raw : List Char)              -- keyword text kept in the tree and upper-cased by the code before use
-  | kwRaw (raw : List Char)                 -- keyword text kept in the tree and compared as written (MERGE … THEN <var>)
   | lit (s : List Char)                     -- string / number literal: never touched
   | node (tag : Nat) (args : List Node)     -- any other expression node (keywords recognised by sqlglot itself)
   deriving Repr
@@ -41,7 +40,6 @@ inductive Node
 def canon : Node → Node
   | .ident i => .ident ⟨i.norm, i.quoted⟩
   | .kwFolded r => .kwFolded (upper r)
-  | .kwRaw r => .kwRaw r
   | .lit s => .lit s
   | .node t as => .node t (canonList as)
 where canonList : List Node → List Node
@@ -53,7 +51,6 @@ where canonList : List Node → List Node
 def CaseEq : Node → Node → Prop
   | .ident a, .ident b => a.quoted = b.quoted ∧ (if a.quoted then a.raw = b.raw else upper a.raw = upper b.raw)
   | .kwFolded a, .kwFolded b => upper a = upper b
-  | .kwRaw a, .kwRaw b => upper a = upper b
   | .lit a, .lit b => a = b
   | .node t as, .node u bs => t = u ∧ CaseEqList as bs
   | _, _ => False
@@ -61,15 +58,6 @@ where CaseEqList : List Node → List Node → Prop
   | [], [] => True
   | a :: as, b :: bs => CaseEq a b ∧ CaseEqList as bs
   | _, _ => False
-
-/-- envelope of the partial theorem: no raw-compared keyword in the statement -/
-def NoRawKw : Node → Prop
-  | .kwRaw _ => False
-  | .node _ as => NoRawKwList as
-  | _ => True
-where NoRawKwList : List Node → Prop
-  | [] => True
-  | a :: as => NoRawKw a ∧ NoRawKwList as
 
 /-- first identifier in depth-first order (`transformed.find(exp.Identifier, bfs=False)`, `cursor.py:304`) -/
 def firstIdent : Node → Option Ident
@@ -83,8 +71,11 @@ where firstIdentList : List Node → Option Ident
 /-- the name put into the status message (`cursor.py:305`) — computed on the tree as parsed -/
 def statusName (n : Node) : Option (List Char) := (firstIdent (canon n)).map fun i => if i.quoted then i.raw else upper i.raw
 
-/-- `transforms_merge`: is the THEN variable of a matched clause DELETE?  (as written in the pinned tree) -/
-def thenIsDelete (raw : List Char) : Bool := raw == "DELETE".toList
+/-- `transforms_merge.py:71,119,185`: is the THEN variable of a matched clause DELETE? -/
+def thenIsDelete (raw : List Char) : Bool := upper raw == "DELETE".toList
+
+/-- the comparison before the repair (`then.args.get("this") == "DELETE"`) -/
+def thenIsDeleteOld (raw : List Char) : Bool := raw == "DELETE".toList
 
 /-- `expr.key_command` / `checks.py`: kind strings are upper-cased before they are compared -/
 def kindIs (raw : List Char) (k : String) : Bool := upper raw == k.toList
